@@ -189,14 +189,53 @@ def rule_R17_method_stubs(text, mask, ctx):
     if not table:
         return eds
     names = '|'.join(sorted(table.keys(), key=len, reverse=True))
-    for m in re.finditer(r'(&?[A-Za-z_][\w.]*?)\.(' + names + r')\(', mask):
+    for m in re.finditer(r'\.(' + names + r')\(', mask):
         close = _balanced_call(mask, m.end() - 1)
         args = text[m.end():close].strip()
-        recv = m.group(1)
-        stub = table[m.group(2)]
+        r0 = _recv_start(mask, m.start())
+        if r0 >= m.start():
+            continue
+        recv = text[r0:m.start()]
+        stub = table[m.group(1)]
         new = '%s(&%s%s)' % (stub, recv.lstrip('&'), (', ' + args) if args else '')
-        eds.append((m.start(), close + 1, new, 'R4'))
+        eds.append((r0, close + 1, new, 'R4'))
     return eds
+
+
+def _recv_start(mask, p):
+    """start of the postfix expression that ends just before the '.' at p: identifiers, paths, field accesses,
+    call / index suffixes with balanced brackets, a string literal, and one leading '&'"""
+    i = p
+    while i > 0:
+        c = mask[i - 1]
+        if c in ')]':
+            depth = 0
+            j = i - 1
+            while j >= 0:
+                if mask[j] in ')]':
+                    depth += 1
+                elif mask[j] in '([':
+                    depth -= 1
+                    if depth == 0:
+                        break
+                j -= 1
+            if j < 0:
+                break
+            i = j
+        elif c.isalnum() or c in '_.':
+            i -= 1
+        elif c == ':' and i >= 2 and mask[i - 2] == ':':
+            i -= 2
+        elif c == '"':
+            j = mask.rfind('"', 0, i - 1)
+            if j < 0:
+                break
+            i = j
+        else:
+            break
+    if i > 0 and mask[i - 1] == '&':
+        i -= 1
+    return i
 
 
 RULES = [rule_R7_static, rule_R0_paths, rule_R1_format, rule_R1b_println, rule_R16_doc, rule_R2_chars_collect, rule_R3_streq,
@@ -482,6 +521,13 @@ class Gen:
             counted = sect in ('ensures', 'invariant', 'invariant_except_break', 'decreases') or (m and sect != 'requires')
             depth_delta = sum(code.count(c) for c in '([{') - sum(code.count(c) for c in ')]}')
             if cur is not None:
+                if cur.get('split_next'):
+                    # a labelled conjunct inside a still-open clause has ended: the following lines form the next conjunct
+                    self._clause_n = getattr(self, '_clause_n', 0) + 1
+                    nxt = dict(fn=fnname, label='%s.%s#%d' % (fnname, sect, self._clause_n), kind=sect, props=cur['props'] if not cur.get('own_props') else props,
+                               text='', tmpl_line=tl, tmpl_lines=[], depth=cur['depth'], continuation=True)
+                    self.ledger.append(nxt)
+                    cur = nxt
                 cur['depth'] += depth_delta
                 cur['tmpl_lines'].append(tl)
                 cur['text'] = (cur['text'] + ' ' + code)[:400]
@@ -489,13 +535,19 @@ class Gen:
                     cur['label'] = m.group(1)
                     if m.group(2):
                         cur['props'] = m.group(2).split()
+                        cur['own_props'] = True
+                    cur['split_next'] = True
             elif counted or (m and sect == 'ghost'):
                 self._clause_n = getattr(self, '_clause_n', 0) + 1
                 label = m.group(1) if m else '%s.%s#%d' % (fnname, sect, self._clause_n)
                 p = m.group(2).split() if (m and m.group(2)) else props
                 cur = dict(fn=fnname, label=label, kind=sect, props=p, text=code, tmpl_line=tl, tmpl_lines=[tl], depth=depth_delta)
+                if m:
+                    cur['split_next'] = True
                 self.ledger.append(cur)
             if cur is not None and (sect == 'ghost' or (cur['depth'] <= 0 and (code.endswith(',') or code.endswith(';') or code.endswith('}')))):
+                if cur.get('continuation') and not re.search(r'\w', cur['text']):
+                    self.ledger.remove(cur)
                 cur = None
         return out
 
